@@ -73,7 +73,7 @@ func c08BuildFile(idx int) *c08File {
 	}
 	f := &c08File{rows: c08Rows(), schema: parquet.SchemaOf(SRow{})}
 	var d []string
-	opts := []parquet.WriterOption{parquet.PageBufferSize(40)}
+	opts := []parquet.WriterOption{parquet.PageBufferSize(16)} // 2 rows per int64 page, 4 per dictionary-index page
 	if ax[0] == 1 {
 		opts = append(opts, parquet.DataPageVersion(1))
 		d = append(d, "v1")
@@ -121,8 +121,14 @@ func c08BuildFile(idx int) *c08File {
 	return f
 }
 
+// c08Opened is the file opened last by open(): the LoadIndex operation loads
+// the page index of its column chunks (a no-op unless SkipPageIndex deferred it).
+var c08Opened *parquet.File
+
 func (f *c08File) open() (*parquet.File, error) {
-	return parquet.OpenFile(bytes.NewReader(f.data), int64(len(f.data)), f.fopts...)
+	pf, err := parquet.OpenFile(bytes.NewReader(f.data), int64(len(f.data)), f.fopts...)
+	c08Opened = pf
+	return pf, err
 }
 
 // seekReader abstracts the reader kinds.
@@ -410,6 +416,13 @@ func c08Open(f *c08File, kind string) (seekReader, []string, error) {
 	panic("unknown reader " + kind)
 }
 
+func b2i(b bool) int {
+	if b {
+		return 1
+	}
+	return 0
+}
+
 func c08Depth(tier string) int {
 	if tier == "thorough" {
 		return 4
@@ -490,6 +503,12 @@ func c08Run(x *engine.X) {
 	if canReset {
 		nops++ // Reset(): the reader is back at row 0, whatever happened before
 	}
+	// LoadIndex: the page index skipped at open time is loaded in the middle of the history
+	lazyIndex := strings.Contains(f.desc, "noindex") && kind != "Buffer.Rows" && c08Opened != nil
+	opened := c08Opened
+	if lazyIndex {
+		nops++
+	}
 	for d := 0; d < D; d++ {
 		c := x.Choose(nops+1, "op")
 		if c == 0 {
@@ -514,7 +533,17 @@ func c08Run(x *engine.X) {
 			pos = c
 			continue
 		}
-		if canReset && c == nops-1 {
+		if lazyIndex && c == nops-1 {
+			hist = append(hist, "LoadIndex")
+			for _, rg := range opened.RowGroups() {
+				for _, cc := range rg.ColumnChunks() {
+					cc.OffsetIndex()
+					cc.ColumnIndex()
+				}
+			}
+			continue // the position does not change
+		}
+		if canReset && c == nops-1-b2i(lazyIndex) {
 			hist = append(hist, "Reset")
 			r.(resetter).Reset()
 			pos = 0
@@ -565,7 +594,7 @@ func init() {
 		ID:    "C08",
 		Level: "model_checking",
 		MC:    true,
-		Rule: "64 files (data page v1/v2 x page index or SkipPageIndex x 1/3 row groups x none/snappy x read buffer default/16 x sync/async) of 10 nested rows with 1-3 rows per page x 18 reader kinds (ConvertRowReader over a forward-only source, Reader, GenericReader, RowGroup.Rows, MultiRowGroup.Rows, Buffer.Rows, ColumnChunk.Pages of 5 columns, ColumnChunkValueReader of 2 columns, Column.Pages of 2 columns, and the merge planner's row-range view of rows [2,8) read as rows and as pages of 2 columns) x ALL operation sequences of length <= D (3 quick, 4 thorough; one deeper on the 4 plain v1/v2 files) over SeekToRow(0..N), Read(1|2|N+1)/ReadPage and, on Reader and GenericReader, Reset(), then drained; cursor model oracle on every step; " +
+		Rule: "64 files (data page v1/v2 x page index or SkipPageIndex x 1/3 row groups x none/snappy x read buffer default/16 x sync/async) of 10 nested rows with 1-4 rows per page (3 pages in the dictionary column) x 18 reader kinds (ConvertRowReader over a forward-only source, Reader, GenericReader, RowGroup.Rows, MultiRowGroup.Rows, Buffer.Rows, ColumnChunk.Pages of 5 columns, ColumnChunkValueReader of 2 columns, Column.Pages of 2 columns, and the merge planner's row-range view of rows [2,8) read as rows and as pages of 2 columns) x ALL operation sequences of length <= D (3 quick, 4 thorough; one deeper on the 4 plain v1/v2 files) over SeekToRow(0..N), Read(1|2|N+1)/ReadPage and, on Reader and GenericReader, Reset(), and, on files opened with SkipPageIndex, the lazy load of the page index, then drained; cursor model oracle on every step; " +
 			"non-trivial = >=2 operations before the drain",
 		Assumptions: []string{"a refused SeekToRow(N) (seek to the very end) is accepted; async mode runs here under the free Go scheduler as a sequential client (its interleavings are C15's)"},
 		Bound:       func(string) int { return 0 },
